@@ -98,7 +98,8 @@ func ZZ_C13_string() {
 	vrt.Assert("string_is_decimal_value", u.String() == want)
 	js, err := u.MarshalJSON()
 	vrt.Assert("json_is_decimal_value", vrt.And(err == nil, string(js) == want))
-	var back Uint128
+	// the destination already holds another value (encoding/json reuses existing values)
+	back := Uint128{Upper: vrt.U64("old_upper"), Lower: vrt.U64("old_lower")}
 	err = back.UnmarshalJSON(js)
 	vrt.Assert("json_roundtrip", vrt.And(err == nil, vrt.And(back.Upper == up, back.Lower == lo)))
 	vrt.Reach("end")
